@@ -210,7 +210,7 @@ struct TreeWorld : World {
 // run a SUT call under the comparator step budget (seq mode with a counting comparator only)
 #define TCALL(x, stmt)                                                                                       \
     do {                                                                                                     \
-        g_cmp_calls = 0; g_cmp_budget = budget();                                                            \
+        g_cmp_calls = 0; g_cmp_budget = counting ? budget() : 0;  /* size() is unlocked: never in thread programs */ \
         if (counting && sigsetjmp(g_cmp_jmp, 1) != 0) {                                                      \
             sim_in_sut(false);                                                                               \
             sut_abandon();                                                                                   \
